@@ -48,6 +48,10 @@ def gen_cases(tier, seed):
     # small, non-round alpha: several hundred thousand points are drawn
     for r in range(3 if tier == "quick" else 30):
         cases.append({"kind": "drawn", "deg_step": int(rng.choice([5, 10, 15, 30])), "alpha": float(rng.uniform(1.05e-4, 3.9e-4)), "sub": int(rng.integers(1 << 31)), "cost": 4})
+    # round alphas with sample sizes for which the quantile position (1-alpha)*(n-1) is an exact integer, one below, one above
+    qrng = np.random.default_rng([seed, 3, 9])
+    for n_, a_ in ((101, 0.1), (51, 0.2), (65, 0.25), (201, 0.3), (1001, 0.01), (81, 0.05), (100, 0.1), (102, 0.1), (1000, 0.01), (21, 0.25)):
+        cases.append({"kind": "cloud", "deg_step": int(qrng.choice([5, 10, 24, 45])), "alpha": a_, "n": n_, "cloud": ["model", "gauss-corr", "heavy"][n_ % 3], "dtype": "float64", "sub": int(qrng.integers(1 << 31))})
     return cases
 
 
